@@ -107,7 +107,7 @@ MapRun(ev, i, M, everHad) ==
   ELSE LET e == ev[i] IN
     IF e.e = "Req"
     THEN LET M2 == ApplyAll(M, e.peer, e.items, 1) IN
-         /\ Len(e.replies) = Len(e.items) /\ (Len(e.items) > 0 => e.nfooter = 1)
+         /\ Len(e.replies) = Len(e.items) /\ (Len(e.items) > 0 => (e.nfooter >= 1 /\ e.nfooter <= Len(e.items)))   \* a request that arrives in pieces is answered in pieces, each a calendar of its own
          /\ RepliesOk(M, e, 1, TRUE)
          /\ (i < Len(ev) /\ ev[i + 1].e = "State" => TableOf(ev[i + 1]) = M2)
          /\ MapRun(ev, i + 1, M2, IF M2 # M THEN everHad \cup {e.peer} ELSE everHad)
